@@ -60,16 +60,19 @@ fn run_json(exe: &Path, args: &[&str]) -> Result<Value, Harness> {
     Ok(serde_json::from_slice(&out.stdout)?)
 }
 
-/// The isolated oracle: every (program, input) pair in its own fresh process.
+/// The isolated oracle: every program in its own fresh process (all inputs, nothing else).
 fn oracle(cfg: &Cfg, exe: &Path) -> Result<Value, Harness> {
     let l = run_json(exe, &["list"])?;
     let np = l["programs"].as_array().map_or(0, |a| a.len());
     let nx = l["inputs"].as_array().map_or(0, |a| a.len());
-    let pairs: Vec<(usize, usize)> = (0..np).flat_map(|p| (0..nx).map(move |x| (p, x))).collect();
-    let res: Vec<Result<Value, Harness>> = par_map(&pairs, cfg.workers, |_| (), |_, _, &(p, x)| run_json(exe, &["oracle", &p.to_string(), &x.to_string()]));
+    let progs: Vec<usize> = (0..np).collect();
+    let res: Vec<Result<Value, Harness>> = par_map(&progs, cfg.workers, |_| (), |_, _, &p| run_json(exe, &["oracle", &p.to_string()]));
     let mut table = vec![vec![Value::Null; nx]; np];
-    for ((p, x), r) in pairs.iter().zip(res) {
-        table[*p][*x] = r?;
+    for (p, r) in progs.iter().zip(res) {
+        let row = r?;
+        for x in 0..nx {
+            table[*p][x] = row[x].clone();
+        }
     }
     Ok(json!({"programs": l["programs"], "inputs": l["inputs"], "table": table}))
 }
@@ -110,6 +113,37 @@ fn run_sched(exe: &Path, table: &Path, seed: u64, iters: usize, sched: &str, dir
         return Err(Harness(format!("simthreads run failed without a persisted schedule: {msg}")));
     }
     Ok(RunOut { stats: None, failure: Some((msg, schedule)) })
+}
+
+/// S2: real threads under Miri's seeded scheduler. Returns (seeds run, failure).
+fn run_miri(cfg: &Cfg, seeds: std::ops::Range<u64>, threads: usize, reps: usize) -> Result<(u64, Option<(u64, String)>), Harness> {
+    let flags = format!(
+        "-Zmiri-many-seeds={}..{} -Zmiri-preemption-rate=0.05 -Zmiri-disable-isolation",
+        seeds.start, seeds.end
+    );
+    let out = Command::new("cargo")
+        .current_dir(sim_dir(cfg))
+        .args(["+nightly", "miri", "run", "--offline", "-q", "-p", "simmiri", "--target-dir"])
+        .arg(sim_dir(cfg).join("target-miri"))
+        .args(["--", &threads.to_string(), &reps.to_string()])
+        .env("MIRIFLAGS", flags)
+        .env("CARGO_NET_OFFLINE", "true")
+        .output()?;
+    let text = format!("{}{}", String::from_utf8_lossy(&out.stdout), String::from_utf8_lossy(&out.stderr));
+    let ok_runs = text.lines().filter(|l| l.starts_with("simmiri: ")).count() as u64;
+    let failing_seed = text.lines().find_map(|l| l.trim().strip_prefix("FAILING SEED: ").and_then(|s| s.trim().parse::<u64>().ok()));
+    let mismatch = text.lines().find(|l| l.contains("MISMATCH")).map(|l| l.to_string());
+    let ub = text.lines().find(|l| l.contains("Undefined Behavior") || l.contains("Data race detected")).map(|l| l.to_string());
+    if let Some(m) = mismatch.or(ub) {
+        return Ok((ok_runs, Some((failing_seed.unwrap_or(seeds.start), m))));
+    }
+    if !out.status.success() {
+        return Err(Harness(format!(
+            "Miri run failed without a mismatch: {}",
+            text.lines().filter(|l| !l.starts_with("Trying seed")).take(12).collect::<Vec<_>>().join(" | ")
+        )));
+    }
+    Ok((ok_runs, None))
 }
 
 pub fn check(cfg: &Cfg) -> Result<i32, Harness> {
@@ -195,6 +229,25 @@ pub fn check(cfg: &Cfg) -> Result<i32, Harness> {
         }
     }
     let _ = std::fs::remove_dir_all(&scratch);
+    // S2: preemption inside interpreter calls (Miri's seeded scheduler, real threads)
+    let n_seeds = cfg.n(12, 384) as u64;
+    let base = cfg.seed.wrapping_mul(1000) % 1_000_000;
+    let (miri_runs, miri_fail) = run_miri(cfg, base..base + n_seeds, 3, 2)?;
+    tally.add_n("miri_seeds", miri_runs);
+    if let Some((seed, msg)) = miri_fail {
+        let mut fp = BTreeMap::new();
+        fp.insert("flavour".into(), "miri".to_string());
+        violations.push(Violation {
+            property: ID.into(),
+            class: "S2".into(),
+            detail: format!("with real threads under Miri's scheduler (seed {seed}) a run differed from the sequential run, or Miri reported undefined behaviour: {}", msg.chars().take(700).collect::<String>()),
+            fingerprint: fp,
+            case: json!({"kind": "miri", "miri_seed": seed, "threads": 3, "reps": 2}),
+            seed: cfg.seed,
+            run: 1000 + seed,
+            minimised_steps: 0,
+        });
+    }
     let pick = |p: &str| -> BTreeMap<String, u64> {
         tally.0.iter().filter(|(k, _)| k.starts_with(p)).map(|(k, v)| (k[p.len()..].to_string(), *v)).collect()
     };
@@ -202,9 +255,9 @@ pub fn check(cfg: &Cfg) -> Result<i32, Harness> {
         property: ID,
         level: "exploration",
         coverage: json!({
-            "evaluations": schedules.max(1),
+            "evaluations": (schedules + miri_runs).max(1),
             "distinct_nontrivial": interleavings.len().min(tally.get("nontrivial_interleavings") as usize),
-            "rule": "S0: the simthreads crate, which asserts `Filter<DataKind>: Send + Sync`, `Filter<JustLut<Val>>: Send + Sync`, `Lut: Send + Sync` and (feature jaq-json/sync) `Val: Send + Sync`, is compiled against the working tree in both flavours. S1: for 60 terminating programs (regex with different flags, formats, dates, closures, labels, folds, updates, paths, codecs) x 8 inputs the output stream is computed alone in a fresh process each (isolated oracle); then shuttle runs seeded random and PCT(depth 3) schedules of 2-4 threads sharing one compiled filter per program, each thread pulling one output per scheduling step, one thread in ten also compiling and running another program in between, and - in the sync flavour - half of the threads working on one value shared between them; every stream must equal the isolated one, recompilation must succeed iff it does in isolation, and the shared value must be unchanged. An interleaving is the sequence of thread ids in pull order; distinct = distinct interleavings (hash) among non-trivial ones; non-trivial = at least T context switches (not a concatenation of complete runs).",
+            "rule": "S0: the simthreads crate, which asserts `Filter<DataKind>: Send + Sync`, `Filter<JustLut<Val>>: Send + Sync`, `Lut: Send + Sync` and (feature jaq-json/sync) `Val: Send + Sync`, is compiled against the working tree in both flavours. S1: for 60 terminating programs (regex with different flags, formats, dates, closures, labels, folds, updates, paths, codecs) x 8 inputs the output streams are computed in a fresh process per program that does nothing else (isolated oracle); then shuttle runs seeded random and PCT(depth 3) schedules of 2-4 threads sharing one compiled filter per program, each thread pulling one output per scheduling step, one thread in ten also compiling and running another program in between, and - in the sync flavour - half of the threads working on one value shared between them; every stream must equal the isolated one, recompilation must succeed iff it does in isolation, and the shared value must be unchanged. An interleaving is the sequence of thread ids in pull order; distinct = distinct interleavings (hash) among non-trivial ones; non-trivial = at least T context switches (not a concatenation of complete runs).",
             "schedules": pick("schedules:"),
             "static_facts": pick("static_facts_hold:"),
             "threads_run": tally.get("threads"),
@@ -213,12 +266,14 @@ pub fn check(cfg: &Cfg) -> Result<i32, Harness> {
             "distinct_interleavings_total": interleavings.len(),
             "nontrivial_interleavings": tally.get("nontrivial_interleavings"),
             "oracle_processes": tally.get("oracle_processes"),
+            "miri": {"seeds_run": miri_runs, "seed_range": [base, base + n_seeds], "threads": 3, "repetitions": 2, "preemption_rate": 0.05,
+                     "what": "S2: 3 real threads share the compiled filters of 10 core-language programs (lazily created nested labels, folds, closures, recursion, updates) and run them twice each under Miri, whose scheduler preempts at basic-block granularity from a seed (one seed = one exactly repeatable execution) and which also reports data races and undefined behaviour; every stream must equal the sequential one"},
             "faults_injected": "none: the property has no fault in it; the simulated dimension is the schedule",
-            "real_vs_stub": {"real": ["jaq compiler and interpreter, all natives, value type in both reference-counting flavours"], "simulated": ["thread scheduling (shuttle RandomScheduler / PctScheduler from VERIF_SEED)"], "note": "jaq contains no synchronisation, so the only scheduling points are the ones the harness inserts between pulls, around recompilation and at thread exit; finer interleavings inside one native call are not explored by shuttle"},
+            "real_vs_stub": {"real": ["jaq compiler and interpreter, all natives, value type in both reference-counting flavours"], "simulated": ["thread scheduling (shuttle RandomScheduler / PctScheduler from VERIF_SEED; Miri's seeded scheduler in S2)"], "note": "jaq contains no synchronisation, so shuttle's only scheduling points are the ones the harness inserts between pulls, around recompilation and at thread exit; interleavings inside one interpreter call are explored by the (much smaller) Miri stratum, on core-language programs without the standard prelude"},
             "samples": samples,
         }),
         assumptions: vec![
-            "interleavings are explored at pull granularity; a data race inside a single native call would need preemption inside jaq code, which shuttle cannot produce because jaq uses no shuttle primitive".into(),
+            "shuttle explores interleavings at pull granularity only (jaq uses no shuttle primitive); preemption inside an interpreter call is left to the Miri stratum, which covers core-language programs (no standard prelude) on a small sample of seeds".into(),
             "filters reading the clock, the environment or the input stream are excluded, as the statement allows".into(),
         ],
     };
@@ -228,6 +283,11 @@ pub fn check(cfg: &Cfg) -> Result<i32, Harness> {
 pub fn replay(cfg: &Cfg, v: &Violation) -> Result<Option<(String, String)>, Harness> {
     let kind = v.case["kind"].as_str().unwrap_or("");
     let sync = v.case["flavour"].as_str() == Some("sync");
+    if kind == "miri" {
+        let seed = v.case["miri_seed"].as_u64().unwrap_or(0);
+        let (_, fail) = run_miri(cfg, seed..seed + 1, v.case["threads"].as_u64().unwrap_or(3) as usize, v.case["reps"].as_u64().unwrap_or(2) as usize)?;
+        return Ok(fail.map(|(_, m)| ("S2".to_string(), m)));
+    }
     if kind == "static" {
         return Ok(match build(cfg, sync)? {
             Ok(_) => None,
